@@ -20,6 +20,7 @@ static const std::vector<FaultSpec> &fault_table() {
         {"getlogin_r", {ENXIO, ENOTTY, ENOENT}, false, false},
         {"getpwuid_r", {EIO, EINTR, EMFILE, ENOMEM, ERANGE}, false, false},
         {"getgrgid_r", {EIO, EINTR, EMFILE, ENOMEM, ERANGE}, false, false},
+        {"getutline_r", {ENOENT, EACCES, EIO, EINTR}, false, false},
         {"time", {EOVERFLOW}, false, false},
         {"gettimeofday", {EFAULT}, false, false},
     };
@@ -109,7 +110,13 @@ static Plan gen_fault_enum(const char *prop, uint64_t seed, int repeats) {
 }
 
 // ------------------------------------------------------------------ C03
-static Plan gen_c03(uint64_t seed, const std::string &) { return gen_fault_enum("C03", seed, 1); }
+static Plan gen_c03(uint64_t seed, const std::string &) {
+    Plan p = gen_fault_enum("C03", seed, 1);
+    // a failure must not leave anything behind that stops a later exec of the same process either (PATH walk after ENOENT, vfork launcher):
+    // when the faulted call returns to its caller, the same call is made once more without the fault
+    if (!p.ops.empty() && p.ops.back().op == "Exec" && !p.ops.back().ex.success && !p.ops.back().ex.faults.empty()) { Op again = p.ops.back(); again.ex.faults.clear(); p.ops.push_back(again); }
+    return p;
+}
 static Verdict oracle_c03(const Plan &p, const RunResult &r) {
     long census = p.extra.geti("census_steps");
     for (auto &cv : calls_of(p)) {
